@@ -91,7 +91,7 @@ def do_call(fr, n):
             for b in ctx.model.bases(cls) if cls else []:
                 m = ctx.model.lookup_method(b, f.attr)
                 if m is not None:
-                    return call_function(fr, m.qual, [fr.env.get('self')] + args, kw, extra, n)
+                    return call_function(fr, m.qual, [fr.env.get('self')] + args, kw, extra, n, nself=1)
             return ('opaque', 'super call')
         recv_node = f.value
         # module-qualified: np.xxx, pd.xxx, warnings.warn ...
@@ -133,7 +133,9 @@ def call_value(fr, fv, args, kw, extra, n):
         k2.update(kw)
         return call_value(fr, fv[1], a2, k2, list(fv[4]) + list(extra), n)
     if fv[0] == 'boundmethod':
-        return call_function(fr, fv[2], [fv[1]] + list(args), kw, extra, n)
+        if 'staticmethod' in ctx_decorators(fr, fv[2]):
+            return call_function(fr, fv[2], list(args), kw, extra, n)
+        return call_function(fr, fv[2], [fv[1]] + list(args), kw, extra, n, nself=1)
     if fv[0] == 'gamma':
         a = call_value(fr, fv[2], args, kw, extra, n)
         b = call_value(fr, fv[3], args, kw, extra, n)
@@ -194,7 +196,15 @@ def canonical_call(fr, fn, bound, extra):
     return T.call(fn.name, (), kw)
 
 
-def call_function(fr, qual, args, kw, extra, n):
+def ctx_decorators(fr, qual):
+    try:
+        return fr.ctx.lookup_func(qual).decorators
+    except Exception:
+        return []
+
+
+def call_function(fr, qual, args, kw, extra, n, nself=0):
+    """``nself`` = number of leading arguments that were supplied implicitly (the receiver of a method call): they have no node in n.args"""
     ctx = fr.ctx
     fn = ctx.lookup_func(qual)
     short = qual.rsplit('.', 1)[1]
@@ -218,8 +228,10 @@ def call_function(fr, qual, args, kw, extra, n):
     # by-reference updates of arguments that were plain local names
     for p, new in sub.param_out.items():
         if p in fn.params:
-            i = fn.params.index(p)
+            i = fn.params.index(p) - nself
             node = None
+            if i < 0:
+                continue
             if i < len(n.args) and not any(isinstance(a, ast.Starred) for a in n.args[:i + 1]):
                 node = n.args[i]
             else:
@@ -230,6 +242,12 @@ def call_function(fr, qual, args, kw, extra, n):
                 fr.update_name(node.id, new)
             elif isinstance(node, ast.Attribute) and isinstance(node.value, ast.Name) and fr.env.get(node.value.id, ('?',))[0] == 'obj':
                 fr.place_set(node, new)                  # f(self.x): in-place update of the attribute's value
+            elif isinstance(node, ast.Subscript) and not isinstance(node.slice, ast.Slice) and not fr.is_place(node) and fr.is_place(node.value) \
+                    and not isinstance(node.value, ast.Name):
+                # f(self.x[i]): the callee updated element i of the attribute's list in place
+                fr.place_set(node.value, SE._arr_store(fr.place_get(node.value), fr.ex(node.slice), new, fr.guard()))
+            elif fr.is_place(node) and not isinstance(node, ast.Name):
+                fr.place_set(node, new)
             elif isinstance(node, ast.Subscript) and isinstance(node.value, ast.Name) and node.value.id in fr.env:
                 k_ = fr.ex(node.slice) if not isinstance(node.slice, ast.Slice) else None
                 if k_ is not None:
@@ -740,7 +758,9 @@ def method(fr, recv, recv_node, name, args, kw, extra, n):
     if tag == 'obj':
         m = ctx.model.lookup_method(ctx.heap[recv[1]]['cls'], name)
         if m is not None:
-            return call_function(fr, m.qual, [recv] + list(args), kw, extra, n)
+            if 'staticmethod' in m.decorators:
+                return call_function(fr, m.qual, list(args), kw, extra, n)         # no implicit first argument
+            return call_function(fr, m.qual, [recv] + list(args), kw, extra, n, nself=1)
     if tag == 'boundmethod':
         pass
     if tag == 'pool':
